@@ -209,11 +209,14 @@ pub struct ClientCfg {
 	/// finish the builder with `.set_rpc_middleware(RpcServiceBuilder::new())` (an identity middleware): every option
 	/// set before it must survive
 	pub mw_last: bool,
+	/// build through `WsClientBuilder::build_with_transport` (the WebSocket client crate's own builder) instead of
+	/// the core `ClientBuilder`
+	pub ws_builder: bool,
 }
 
 impl Default for ClientCfg {
 	fn default() -> Self {
-		ClientCfg { id_kind: IdK::Number, max_concurrent_requests: 256, sub_buffer: 1024, ping: false, mw_last: false }
+		ClientCfg { id_kind: IdK::Number, max_concurrent_requests: 256, sub_buffer: 1024, ping: false, mw_last: false, ws_builder: false }
 	}
 }
 
@@ -234,18 +237,26 @@ impl MockClient {
 		let (tx, rx) = mpsc::unbounded_channel();
 		let sender = MockSender { shared: shared.clone() };
 		let receiver = MockReceiver { rx, shared: shared.clone() };
-		let mut builder = ClientBuilder::default();
-		if cfg.ping {
-			builder = builder.enable_ws_ping(jsonrpsee_core::client::async_client::PingConfig::new().ping_interval(std::time::Duration::from_secs(100)).inactive_limit(std::time::Duration::from_secs(1_000_000_000)).max_failures(1000));
-		}
-		let builder = builder
-			.id_format(match cfg.id_kind {
-				IdK::Number => IdKind::Number,
-				IdK::String => IdKind::String,
-			})
-			.max_concurrent_requests(cfg.max_concurrent_requests)
-			.max_buffer_capacity_per_subscription(cfg.sub_buffer.max(1));
-		let client = if cfg.mw_last { builder.set_rpc_middleware(jsonrpsee_core::middleware::RpcServiceBuilder::new().rpc_logger(1024)).build_with_tokio(sender, receiver) } else { builder.build_with_tokio(sender, receiver) };
+		let id_kind = match cfg.id_kind {
+			IdK::Number => IdKind::Number,
+			IdK::String => IdKind::String,
+		};
+		let ping_cfg = jsonrpsee_core::client::async_client::PingConfig::new().ping_interval(std::time::Duration::from_secs(100)).inactive_limit(std::time::Duration::from_secs(1_000_000_000)).max_failures(1000);
+		let client = if cfg.ws_builder {
+			let mut builder = jsonrpsee_ws_client::WsClientBuilder::new();
+			if cfg.ping {
+				builder = builder.enable_ws_ping(ping_cfg);
+			}
+			let builder = builder.id_format(id_kind).max_concurrent_requests(cfg.max_concurrent_requests).max_buffer_capacity_per_subscription(cfg.sub_buffer.max(1));
+			if cfg.mw_last { builder.set_rpc_middleware(jsonrpsee_core::middleware::RpcServiceBuilder::new().rpc_logger(1024)).build_with_transport(sender, receiver) } else { builder.build_with_transport(sender, receiver) }
+		} else {
+			let mut builder = ClientBuilder::default();
+			if cfg.ping {
+				builder = builder.enable_ws_ping(ping_cfg);
+			}
+			let builder = builder.id_format(id_kind).max_concurrent_requests(cfg.max_concurrent_requests).max_buffer_capacity_per_subscription(cfg.sub_buffer.max(1));
+			if cfg.mw_last { builder.set_rpc_middleware(jsonrpsee_core::middleware::RpcServiceBuilder::new().rpc_logger(1024)).build_with_tokio(sender, receiver) } else { builder.build_with_tokio(sender, receiver) }
+		};
 		MockClient { client: Arc::new(client), shared, to_client: tx, wire_seen: 0 }
 	}
 
